@@ -420,3 +420,46 @@ def rule_memo_reset(ctx):
                                     'goes stale (observe, mutate, observe)' % (fld, cell))
     r.site('census: %d types with memo cells, %d cells' % (len(by_adt), sum(len(v) for v in by_adt.values())), '(crate)', 'ok')
     return r
+
+
+# ---------------------------------------------------------------- FILL-AGREE (round 10)
+def rule_fill_agree(ctx):
+    """every first-writer of the map cache stores what `inner.map(options)` answers (one producer per key)"""
+    from ..ir import walk
+    f = ctx.facts()
+    r = RuleResult('FILL-AGREE', 'the map cache has one producer per key: every first-writer (VacantEntry::insert / Entry::or_insert*) of '
+                                 'CachedSource\'s map cache stores the value `self.inner.map(options)` returned — a second producer under '
+                                 'the same key (a map re-encoded from streamed chunks) makes map() depend on which call filled the cache '
+                                 'whenever the wrapped source\'s map() is not itself re-encoded from its stream')
+    A = anchors.cached_source(f)
+    for b in f.body_list:
+        if b.promoted is not None or b.d.get('impl_adt') != A['adt']:
+            continue
+        for pt, t in b.calls():
+            c = t.get('callee')
+            if not c or len(t['args']) < 2 or 'dashmap::' not in t['arg_tys'][0]:
+                continue
+            if c.get('name') not in ('insert', 'or_insert', 'or_insert_with', 'insert_entry'):
+                continue
+            e = b.expr_of_operand(t['args'][1])
+            calls = [x for x in walk(e) if isinstance(x, tuple) and x and x[0] == 'call']
+            # the producer: the outermost crate-level call the value comes from
+            prod = None
+            for x in calls:
+                name = x[1].rsplit('::', 1)[-1]
+                if name in ('clone', 'into', 'from', 'deref', 'as_ref'):
+                    continue
+                prod = x
+                break
+            ok = prod is not None and prod[1].rsplit('::', 1)[-1] == 'map' and 'Source' in prod[1]
+            what = prod[1] if prod else 'no call'
+            r.site('%s: cache filled with the result of `%s`' % (b.path, what), t['s'], 'ok' if ok else 'violation')
+            if not ok:
+                r.violation('%s:producer:%s' % (b.path, what.rsplit('::', 1)[-1]), t['s'], b.path,
+                            'the map cache is filled under the caller\'s options with the result of `%s`, while map() fills the same key '
+                            'with `inner.map(options)`: for a wrapped source whose map() returns a stored map (SourceMapSource without '
+                            'inner map; an unedited ReplaceSource or Box around it) the two differ (file / sourceRoot dropped, lines-only '
+                            'mappings for columns=false), so map() of equal CachedSources depends on whether stream_chunks ran first' % what)
+    if not r.sites:
+        raise anchors.AnchorMissing('no first-writer of the CachedSource map cache found')
+    return r
